@@ -329,6 +329,7 @@ pub fn mate_mine(args: &Args) {
         Some("forced") => return mate_mine_shapes(args, "forced"),
         Some("doomed") => return mate_mine_shapes(args, "doomed"),
         Some("terminals") => return mate_mine_terminals(args),
+        Some("crowded") => return mate_mine_crowded(args),
         _ => {}
     }
     let count: usize = args.num("--count", 10);
@@ -633,4 +634,79 @@ fn mate_mine_terminals(args: &Args) {
     }
     out.finish();
     println!("{}", json!({"found": n, "classes": classes.len()}));
+}
+
+/// wv mate-mine --mode crowded : legal positions in which a bishop, rook or queen has every "relevant" square of its lines
+/// (all ray squares except the last one before the edge) occupied, with an enemy man - sometimes the enemy king - among the
+/// nearest blockers. Untrusted input generator for the attack-set checks.
+fn mate_mine_crowded(args: &Args) {
+    use rand::{Rng, SeedableRng};
+    let count: usize = args.num("--count", 40);
+    let seed: u64 = args.num("--seed", 1);
+    let mut rng = rand_chacha::ChaCha8Rng::seed_from_u64(seed);
+    let mut out = Out::new(args.get("--out"));
+    let mut found = std::collections::BTreeSet::new();
+    let dirs_r: [(i32, i32); 4] = [(1, 0), (-1, 0), (0, 1), (0, -1)];
+    let dirs_b: [(i32, i32); 4] = [(1, 1), (1, -1), (-1, 1), (-1, -1)];
+    for _ in 0..2_000_000 {
+        if found.len() >= count { break; }
+        let kind = ['B', 'B', 'R', 'Q'][rng.gen_range(0..4)];
+        let white = rng.gen_bool(0.5);
+        let s = rng.gen_range(0..64usize);
+        let (f0, r0) = ((s % 8) as i32, (s / 8) as i32);
+        let mut board = vec!['.'; 64];
+        board[s] = if white { kind } else { kind.to_ascii_lowercase() };
+        let mut dirs: Vec<(i32, i32)> = vec![];
+        if kind != 'B' { dirs.extend(dirs_r.iter()); }
+        if kind != 'R' { dirs.extend(dirs_b.iter()); }
+        let mut relevant: Vec<usize> = vec![];
+        for (df, dr) in dirs.iter() {
+            let (mut f, mut r) = (f0 + df, r0 + dr);
+            while f >= 0 && f < 8 && r >= 0 && r < 8 {
+                let (nf, nr) = (f + df, r + dr);
+                if nf >= 0 && nf < 8 && nr >= 0 && nr < 8 { relevant.push((r * 8 + f) as usize); }
+                f = nf; r = nr;
+            }
+        }
+        if relevant.is_empty() || relevant.len() > 12 { continue; }
+        // kings: sometimes the enemy king on a relevant square next to the slider, otherwise elsewhere
+        let enemy_k = if white { 'k' } else { 'K' };
+        let own_k = if white { 'K' } else { 'k' };
+        let mut men = 0;
+        for sq in relevant.iter() {
+            let own = rng.gen_bool(0.4);
+            let c = ['P', 'N', 'P', 'B', 'P', 'R'][rng.gen_range(0..6)];
+            let c = if c == 'P' && (sq / 8 == 0 || sq / 8 == 7) { 'N' } else { c };
+            board[*sq] = if own == white { c } else { c.to_ascii_lowercase() };
+            men += 1;
+        }
+        if men > 13 { continue; }
+        if rng.gen_bool(0.5) { let sq = relevant[rng.gen_range(0..relevant.len())]; board[sq] = enemy_k; }
+        let free: Vec<usize> = (0..64).filter(|x| board[*x] == '.').collect();
+        if !board.contains(&enemy_k) { board[free[rng.gen_range(0..free.len())]] = enemy_k; }
+        let free: Vec<usize> = (0..64).filter(|x| board[*x] == '.').collect();
+        board[free[rng.gen_range(0..free.len())]] = own_k;
+        let mut rows = vec![];
+        for r in (0..8).rev() {
+            let mut row = String::new();
+            let mut gap = 0;
+            for f in 0..8 {
+                let c = board[r * 8 + f];
+                if c == '.' { gap += 1; } else { if gap > 0 { row.push_str(&gap.to_string()); gap = 0; } row.push(c); }
+            }
+            if gap > 0 { row.push_str(&gap.to_string()); }
+            rows.push(row);
+        }
+        let place = rows.join("/");
+        // the side to move is the one that may be in check; the other side must not be
+        for (stm, other) in [("w", "b"), ("b", "w")] {
+            let ok = std::panic::catch_unwind(|| { let f = state_of_fen(&format!("{} {} - - 0 1", place, other)); !f.is_check() }).unwrap_or(false);
+            if !ok { continue; }
+            let fen = format!("{} {} - - {} {}", place, stm, rng.gen_range(0..30), rng.gen_range(10..60));
+            if found.len() < count && found.insert(fen.clone()) { out.raw(&fen); }
+            break;
+        }
+    }
+    out.finish();
+    println!("{}", json!({"found": found.len()}));
 }
